@@ -3,19 +3,19 @@
 import json
 CHECKS = {
  "C01": ("Generated descriptors of every output type x generated worlds x 5 entry points; every returned satisfaction is executed by an independent reference Script interpreter under consensus+standardness flags with real signatures over the real transaction.", "property-based testing (proptest choice streams, shrinking) against a reference script interpreter", "§3 C01"),
- "C02": ("Ground truth for `a spend exists` by lazy exhaustive witness search over the holder's alphabet on the independently encoded script; compared with malleable (any consensus-valid script) and non-malleable (sane scripts, all preimages known) entry points.", "property-based testing; differential against exhaustive witness search", "§3 C02"),
+ "C02": ("Ground truth for `a spend exists` by lazy exhaustive witness search over the holder's alphabet on the independently encoded script; compared with malleable (any consensus-valid script) and non-malleable (sane scripts, all preimages known) entry points; or-heavy lane with signers holding everything; raw-pkh lane: decoded scripts and a satisfier that knows keys only together with signatures, truth by enumeration of canonical satisfactions.", "property-based testing; differential against exhaustive witness search", "§3 C02"),
  "C03": ("All accepting witnesses over the adversary alphabet are enumerated for every script of the descriptor; the set must be exactly the library's witness.", "property-based testing; exhaustive alternative-witness search (uniqueness oracle)", "§3 C03"),
  "C04": ("Round trip through an independent encoder and the library decoder modulo a stated normal form; token-level mutated and random scripts must be rejected or re-encode byte-identically.", "property-based testing; round-trip + differential encoder + grammar-aware mutation", "§3 C04"),
- "C05": ("Complete enumeration of the finite type domain (all constructors x all 960^n child tuples, n<=2 quick / n<=3 thorough) against a transcription of the specification's type rules; random larger thresholds and whole ASTs.", "exhaustive enumeration + property-based testing against spec tables", "§3 C05"),
+ "C05": ("Direct constructors store what the type checker computes; complete enumeration of the finite type domain (all constructors x all 960^n child tuples, n<=2 quick / n<=3 thorough) against a transcription of the specification's type rules; random larger thresholds and whole ASTs.", "exhaustive enumeration + property-based testing against spec tables", "§3 C05"),
  "C06": ("Every non-aborting execution of a fragment over a type alphabet (found by lazy enumeration) is compared with the library's static type claims (z,o,n,u,d,f,s,e under m, base shapes).", "property-based testing; exhaustive input-stack enumeration on a reference interpreter", "§3 C06"),
  "C07": ("Own evaluation of the lifted Semantic policy vs. ground-truth satisfiability of the script over all asset subsets (<=6 atoms) x lock contexts.", "property-based testing; truth-table differential against witness search", "§3 C07"),
  "C08": ("Compiled outputs of all compile entry points: truth tables (lift) and sampled script-level ground truth equal the policy; sanity, signedness, non-malleability, stored-type consistency, default re-parse.", "property-based testing; semantic differential + validity predicates", "§3 C08"),
- "C09": ("Every produced satisfaction (random descriptors and scripts built near each limit) is executed with a trace; measured element counts, sizes, weight, opcode count and stack depth are compared with the static figures; accepted scripts must execute within the limits of their rule set.", "property-based testing; measured-vs-static bound on a tracing reference interpreter", "§3 C09"),
+ "C09": ("Every produced satisfaction (random descriptors and scripts built near each limit, signatures stretched to the documented worst-case sizes) is executed with a trace; measured element counts, sizes, weight, opcode count and stack depth are compared with the static figures; every sub-expression's static figures are compared with the exact worst case over the canonical (dis)satisfactions of the specification table (own recursion); all canonical satisfactions are executed (op count, stack depth); accepted / declared-within-limits scripts must execute within the limits of their rule set.", "property-based testing; measured-vs-static bound on a tracing reference interpreter", "§3 C09"),
  "C10": ("Value -> string -> value round trips compared on mirror ASTs (miniscripts, descriptors with every key form, keys, policies, wallet policies), alias spellings, fixed point for any accepted mutated string, own BIP380 checksum, 1-4 symbol corruption of checksummed strings.", "property-based testing; round-trip + mutation + independent checksum implementation", "§3 C10"),
  "C11": ("Six entry classes (all text parsers with post-processing, script decoders, interpreter, PSBT finalizer/updater with corrupted fields, planner with adversarial assets, compiler) fed grammar-mutated, deep, wide and random inputs under catch_unwind with a per-call time limit.", "property-based testing / in-process fuzzing with crash oracle", "§3 C11"),
- "C12": ("One-violation inputs at every parser / decoder / constructor must be rejected or obey the mirror's context rules; each validation switch compared with an independent predicate (single-switch parameter sets); numeric limits at actual-1/actual/actual+1; parameter lattice laws and monotonicity.", "property-based testing against mirror predicates; metamorphic lattice laws", "§3 C12"),
+ "C12": ("One-violation inputs at every parser / decoder / AST entry (from_ast) / constructor (incl. the sortedmulti ones) must be rejected or obey the mirror's context rules; public analysis predicates vs mirror predicates; each validation switch compared with an independent predicate (single-switch parameter sets); numeric limits at actual-1/actual/actual+1; parameter lattice laws and monotonicity.", "property-based testing against mirror predicates; metamorphic lattice laws", "§3 C12"),
  "C13": ("Interpreter verdict and reported constraints vs. the reference interpreter's verdict and trace on library satisfactions, their mutations and lock variations with re-made signatures.", "property-based testing; differential against a tracing reference interpreter", "§3 C13"),
- "C14": ("Operation histories on multi-input PSBTs with invariants after every step (validity of newly final inputs, immutability, atomic failure, idempotence, agreement of single-input and all-input finalizers, extract, update fields vs. own BIP32/BIP341 model) and twin histories with shuffled add-operations.", "stateful property-based testing (operation sequences + invariants + twin histories)", "§3 C14"),
+ "C14": ("Operation histories on multi-input PSBTs (nVersion 1/2/3) with invariants after every step (validity of newly final inputs, immutability, atomic failure, idempotence, result consistency, agreement of single-input and all-input finalizers, agreement of the finalizer with the descriptor's own satisfier holding the input's material, extract, update fields vs. own BIP32/BIP341 model, sighash_msg digests, output updates) and twin histories with shuffled add-operations.", "stateful property-based testing (operation sequences + invariants + twin histories)", "§3 C14"),
  "C15": ("Tree shapes incl. all chains of depth 1..128 vs. own BIP341 Merkle/tweak implementation: output key, control blocks byte-for-byte, leaf order/depth through constructor, parser, print-parse, translate, clone, spend info.", "property-based testing + exhaustive chain depths against an independent BIP341 model", "§3 C15"),
  "C16": ("scriptPubKey / explicit script / script code / scriptSig / addresses vs. own templates; derivation APIs vs. text substitution + own BIP32; sortedmulti permutations; multipath splitting.", "property-based testing; differential against own templates and own BIP32", "§3 C16"),
  "C17": ("Plan existence vs. a satisfier with exactly the same capabilities; completed plan validates with the reported locks and equals the satisfier's output; each reported lock is necessary (lock-1, other unit, none fail); announced sizes >= real.", "property-based testing; differential + necessity/sufficiency metamorphic checks on a reference interpreter", "§3 C17"),
